@@ -49,6 +49,8 @@ structure BA (m : Mode) (A : List El) : Prop where
 structure BInv (s : State) : Prop where
   ba : BA (effMode s) (anchorSuffix s.tree.stack)
   form : ∀ f, s.formPtr = some f → f.isAnchor = false
+  /-- in "text" the current node (the raw text element) is no anchor -/
+  txt : s.mode = .text → ∃ e r, s.tree.stack = e :: r ∧ e.isAnchor = false
 
 /-- a stack is its anchor-free prefix followed by its anchor suffix -/
 theorem stack_decomp (st : List El) : ∃ p, st = p ++ anchorSuffix st ∧ ∀ e ∈ p, e.isAnchor = false := by
